@@ -17,35 +17,21 @@ def uriOK (u : Str) : Bool := !u.isEmpty && uriSafe u && u != xmlnsNsUri
 /-! ### the constant tables -/
 
 def enumEntryOK (e : Str × Str) : Bool :=
-  isNCName e.2 && e.2 != xmlnsPrefix && !(nsLit.isPrefixOf e.2) && uriOK e.1 && ((e.2 == xmlPrefix) == (e.1 == xmlNsUri))
+  isNCName e.2 && e.2 != xmlnsPrefix && uriOK e.1 && ((e.2 == xmlPrefix) == (e.1 == xmlNsUri))
 
 /-- what the proofs need from `Namespace` / `XMLGenerator`: standard prefixes are
-NCNames, none looks like a generated `ns<k>`, `xml` ↔ the XML namespace, no two
-standard namespaces share a prefix -/
+NCNames, `xml` ↔ the XML namespace -/
 def envOK (env : NsEnv) : Bool :=
   env.saxXmlNs == xmlNsUri && dget env.enum xmlNsUri == some xmlPrefix && env.enum.all enumEntryOK
-  && env.enum.all (fun e1 => env.enum.all (fun e2 => e1.2 != e2.2 || e1.1 == e2.1))
 
 /-! ### user prefix map (after `clean_prefixes`) -/
 
-/-- prefixes the user may not choose: `ns<digits>` at or beyond the size of the
-map (they collide with generated ones) -/
-def nsKFree (M : NsMap) : Bool :=
-  M.all fun e => match e.1 with
-    | some p =>
-      -- p = "ns" ++ digits with value ≥ |M| would collide; every "ns" + (one or more digits) prefix is excluded
-      !(nsLit.isPrefixOf p && !(p.drop 2).isEmpty && (p.drop 2).all (fun c => 48 ≤ c.toNat && c.toNat ≤ 57))
-    | none => true
-
-/-- a standard prefix may only be bound to its standard namespace -/
-def enumConsistent (env : NsEnv) (M : NsMap) : Bool :=
-  env.enum.all fun e => match dget M (some e.2) with
-    | some u => u == e.1
-    | none => true
-
-def userMapOK (env : NsEnv) (m : List (Pfx × Str)) : Bool :=
-  let M := serializerNsMap m
-  nsKFree M && enumConsistent env M && M.all declOK
+/-- every entry of the cleaned user map is a legal namespace declaration: NCName
+prefix other than `xmlns`, `xml` only for the XML namespace, a namespace name that
+needs no escaping.  (Since a086d5b `generate_prefix` never rebinds a key, so
+prefixes of the form `ns<digits>` and standard prefixes bound elsewhere are fine.) -/
+def userMapOK (_env : NsEnv) (m : List (Pfx × Str)) : Bool :=
+  (serializerNsMap m).all declOK
 
 /-- the user's default namespace, if any -/
 def userDefault (m : List (Pfx × Str)) : Option Str := dget (serializerNsMap m) none
